@@ -113,6 +113,9 @@ class SqliteStorage(AbstractStorage):
             from aw_datastore import check_for_migration  # fmt: skip
 
             check_for_migration(self)
+            # The migration is never retried once the db file exists,
+            # so make what it wrote durable before anything else happens
+            self.commit()
 
         self.last_commit = datetime.now()
         self.num_uncommitted_statements = 0
